@@ -66,11 +66,14 @@ package fiber
 //@ ..   r.messages[k].key == old(r.messages[k].key) && r.messages[k].value == old(r.messages[k].value) && r.messages[k].level == old(r.messages[k].level) && r.messages[k].isOldInput == old(r.messages[k].isOldInput))
 
 // WithInput attaches the request's own form (or query) fields: the fields come from Bind().Form/Query
-// (reflection glue: assumed to fill the map it is given and nothing else).
+// (checked contracts in zz_contracts_bind_verif.go; what the decoder does with the map is assumed in package binder).
 // One entry per field, value as parsed, flagged as old input; earlier entries stay.
 //@ func (*Redirect).WithInput
 //@   requires own-bind: r.c.bind != nil ==> typeis(r.c.bind.ctx, *DefaultCtx) && as(r.c.bind.ctx, *DefaultCtx) == r.c   // precondition of (*DefaultCtx).Bind (zz_contracts_c05_verif.go)
-//@   modifies r.messages, elems(r.messages), DefaultCtx.bind, heap(MD_string_string), heap(MV_string_string)
+// (frame: Bind().Form/Query are checked now - zz_contracts_bind_verif.go - and their real frame is wider than the one that was
+// assumed for them: the scratch byte buffer of the bracket rewriting (E_uint8) and, when the handler switched this context's
+// binder to WithAutoHandling and binding fails, the response status (sentStatus))
+//@   modifies r.messages, elems(r.messages), DefaultCtx.bind, heap(MD_string_string), heap(MV_string_string), heap(E_uint8), sentStatus
 //@   loop 1
 //@     invariant earlier-kept: len(r.messages) >= old(len(r.messages)) && forall(k, 0, old(len(r.messages)), r.messages[k].key == old(r.messages[k].key) && r.messages[k].value == old(r.messages[k].value) && r.messages[k].level == old(r.messages[k].level) && r.messages[k].isOldInput == old(r.messages[k].isOldInput))
 //@     invariant added-are-old-input: forall(k, old(len(r.messages)), len(r.messages), r.messages[k].isOldInput && r.messages[k].level == 0)
@@ -301,12 +304,8 @@ package fiber
 //@ func (*DefaultCtx).RequestCtx
 //@   pure
 //@   ensures result == c.fasthttp
-// needed: frame (Form/Query write only the map they are given)
-//@ func (*Bind).Form assumed
-//@   modifies heap(MD_string_string), heap(MV_string_string)
-//@ func (*Bind).Query assumed
-//@   modifies heap(MD_string_string), heap(MV_string_string)
-//@ func @binder.FilterFlags assumed pure
+// (*Bind).Form / (*Bind).Query: checked contracts (frame included) in zz_contracts_bind_verif.go
+// (binder.FilterFlags: export view in zz_contracts_bind_verif.go)
 // (*DefaultCtx).Cookies (`ensures [C12] from-request`) and App.getBytes (`ensures str(result) == arg0`) are
 // contracted in zz_contracts_c06_verif.go; (*DefaultCtx).Bind and (*DefaultCtx).Redirect in zz_contracts_c05_verif.go.
 // needed by To: frame (writes the response status only); setCanonical is `pure` in zz_contracts_c07_verif.go
